@@ -2,10 +2,14 @@
 EXTENDS Blind
 CONSTANT Tier
 I(a, v, c, abf, vbf) == [asset |-> a, v |-> v, abf |-> abf, vbf |-> vbf, conf |-> c]
-O(a, v) == [asset |-> a, v |-> v, marked |-> FALSE, fee |-> FALSE, script |-> "std", conf |-> FALSE, abf |-> 0, vbf |-> 0, rp |-> NoProof, sp |-> NoProof]
+O(a, v) == [asset |-> a, v |-> v, marked |-> FALSE, want |-> "full", fee |-> FALSE, script |-> "std", mode |-> "expl", abf |-> 0, vbf |-> 0, rp |-> NoProof, sp |-> NoProof]
 Fee(a, v) == [O(a, v) EXCEPT !.fee = TRUE, !.script = "unspendable"]
 Burn(a) == [O(a, 0) EXCEPT !.script = "unspendable"]          \* explicit zero on OP_RETURN
-NoIss == [on |-> 0, asset |-> "N", v |-> 0]
+Iss(v, vc, vb, tv, tc, tb) == [on |-> 1, v |-> v, vc |-> vc, vb |-> vb, tv |-> tv, tc |-> tc, tb |-> tb]
+NoIss == [on |-> 0, v |-> 0, vc |-> FALSE, vb |-> 0, tv |-> 0, tc |-> FALSE, tb |-> 0]
+\* issuance shapes: amount only, amount and tokens, tokens only (Null amount), and the (partially) blinded forms
+IssSet == { NoIss, Iss(2, FALSE, 0, 0, FALSE, 0), Iss(2, FALSE, 0, 1, FALSE, 0), Iss(0, FALSE, 0, 1, FALSE, 0),
+            Iss(2, TRUE, 3, 1, TRUE, 1), Iss(2, TRUE, 2, 1, FALSE, 0), Iss(2, FALSE, 0, 1, TRUE, 4) }
 InsSets == { << I("A", 3, TRUE, 2, 1) >>, << I("A", 3, FALSE, 0, 0) >>,
              << I("A", 2, TRUE, 1, 4), I("B", 1, TRUE, 3, 2) >>, << I("A", 2, TRUE, 4, 0), I("A", 2, FALSE, 0, 0) >> }
 TotalOf(ins, a) == SumF(LAMBDA i : ValIf(i, a), ins, 1)
@@ -13,14 +17,29 @@ TotalOf(ins, a) == SumF(LAMBDA i : ValIf(i, a), ins, 1)
 BaseOuts(ins, iss) ==
   LET a == TotalOf(ins, "A")  b == TotalOf(ins, "B") IN
   { (IF a - 1 >= 2 THEN alt ELSE << O("A", a - 1) >>) \o << Fee("A", 1) >> \o (IF b > 0 THEN << O("B", b) >> ELSE << >>)
-      \o (IF iss.on # 0 THEN << O("N", iss.v) >> ELSE << >>) \o extra
+      \o (IF iss.v > 0 THEN << O("N", iss.v) >> ELSE << >>) \o (IF iss.tv > 0 THEN << O("T", iss.tv) >> ELSE << >>) \o extra
     : alt \in { << O("A", a - 1) >>, << O("A", 1), O("A", a - 2) >> }, extra \in { << >>, << Burn("A") >> } }
 Perms(s) == { [k \in DOMAIN s |-> s[p[k]]] : p \in Permutations(DOMAIN s) }
 Rotations(s) == { [k \in DOMAIN s |-> s[((k + r - 1) % Len(s)) + 1]] : r \in 0..(Len(s) - 1) }
 Arrangements(s) == IF Tier = "quick" THEN Rotations(s) ELSE Perms(s)
 MarkSets(s) == { m \in SUBSET { k \in DOMAIN s : ~s[k].fee /\ s[k].v > 0 } : m # {} }
 Mark(s, m) == [k \in DOMAIN s |-> IF k \in m THEN [s[k] EXCEPT !.marked = TRUE] ELSE s[k]]
-Sk == UNION { UNION { UNION { { [ins |-> ins, iss |-> iss, outs |-> Mark(arr, m)] : m \in MarkSets(arr) }
+Build(InsS, IssS) ==
+  UNION { UNION { UNION { { [ins |-> ins, iss |-> iss, outs |-> Mark(arr, m), manual |-> FALSE] : m \in MarkSets(arr) }
                                : arr \in Arrangements(base) } : base \in BaseOuts(ins, iss) }
-              : ins \in InsSets, iss \in { NoIss, [on |-> 1, asset |-> "N", v |-> 2] } }
+              : ins \in InsS, iss \in IssS }
+NMarked(sk) == Cardinality({ j \in DOMAIN sk.outs : sk.outs[j].marked })
+PlainIss == { NoIss, Iss(2, FALSE, 0, 0, FALSE, 0) }
+SmallIns == { << I("A", 3, TRUE, 2, 1) >>, << I("A", 3, FALSE, 0, 0) >> }
+\* Transaction::blind: every marked output fully blinded.  The plain issuance shapes go with every input set; the token /
+\* blinded-issuance shapes with the single-input sets (quick: at most two marked outputs)
+SkFull == Build(InsSets, PlainIss)
+          \cup { sk \in Build(SmallIns, IssSet \ PlainIss) : Tier # "quick" \/ NMarked(sk) <= 2 }
+\* hand-blinded: exactly one marked output in a partial mode (the last marked one must commit its value)
+MaxOf(m) == CHOOSE k \in m : \A j \in m : j <= k
+PartialOf(sk) == { [sk EXCEPT !.outs[k].want = w, !.manual = TRUE]
+                   : k \in { j \in DOMAIN sk.outs : sk.outs[j].marked }, w \in {"value", "asset"} }
+WantOk(sk) == LET m == { j \in DOMAIN sk.outs : sk.outs[j].marked } IN sk.outs[MaxOf(m)].want # "asset"
+SkPartial == { p \in UNION { PartialOf(sk) : sk \in { s \in Build(SmallIns, { NoIss, Iss(2, FALSE, 0, 1, FALSE, 0) }) : Tier # "quick" \/ NMarked(s) <= 2 } } : WantOk(p) }
+Sk == SkFull \cup SkPartial
 =============================================================================
